@@ -273,7 +273,7 @@ def run_one(pid, p, wt, props):
     try:
         open(dst, "w").write(open(f"{out}/{p['id']}.py").read())
         t0 = time.time()
-        r = subprocess.run([f"{VERIF}/tools/baseline.py", wt], capture_output=True, text=True)
+        r = subprocess.run(["timeout", "-k", "5", "300", f"{VERIF}/tools/baseline.py", wt], capture_output=True, text=True)
         res["suite"] = "pass" if r.returncode == 0 else "fail"
         res["suite_s"] = round(time.time() - t0)
         if r.returncode == 0:
